@@ -1,0 +1,12 @@
+//go:build verif
+
+// Verification contracts for the placeholder checkpoint store (C33; comment-only; read by /verif/govc).
+// This file contains no executable code.
+// The processors keep exactly the records with Offset > LoadOffset().Offset: a store in which nothing was ever
+// committed must therefore report -1, or the partition's first record (offset 0) is never delivered. The placeholder
+// store never records a commit, so "nothing committed" is its only state.
+
+package checkpoint
+
+//@ func (n *noopStore) LoadOffset
+//@   ensures [C33.nothing_committed_reads_minus_one] err == nil && result0.Offset == -1 && result0.Topic == topic && result0.Partition == partition
